@@ -200,7 +200,7 @@ func vfGenC03(r *vfRand, id int) *vfWorldCase {
 			acts = append(acts, vfAction{Kind: "callback", Browser: b, Slot: slot,
 				StateMode: vfPick(r, "own", "stale", "foreign", "absent", "garbage"),
 				CodeMode:  vfPick(r, "own", "own", "absent", "garbage", "reused"), From: (b + 1) % nb,
-				Script: &vfTokenScript{Kind: vfPick(r, "ok", "ok", "invalid_grant", "server_error", "malformed", "no_id_token"),
+				Script: &vfTokenScript{Kind: vfPick(r, "ok", "ok", "invalid_grant", "server_error", "malformed", "no_id_token", "drop"),
 					Spec: vfPlainTok("user@example.com", 3600), NonceMode: vfPick(r, "", "", "other", "missing")}})
 		case 7: // provider error redirect
 			acts = append(acts, vfAction{Kind: "callback", Browser: b, Slot: slot, ErrParam: "access_denied", ErrDesc: "user said no", CodeMode: vfPick(r, "own", "absent")})
@@ -269,6 +269,14 @@ func vfGenC04(r *vfRand, id int) *vfWorldCase {
 		}
 	}
 	slot := func() int { return r.intn(nslots) }
+	if r.chance(1, 3) {
+		// leftovers of an earlier session with a much larger token, logged out before the login under test
+		big := vfOkScript(vfSizedTok(r, []int{6000, 9000, 20000}[r.intn(3)], true))
+		big.RefreshLen = []int{0, 5200}[r.intn(2)]
+		acts = append(acts, vfLogin(0, slot(), "/earlier", big)...)
+		acts = append(acts, vfGated(0, slot(), "/earlier", 1))
+		acts = append(acts, vfLogoutAct(0, slot()))
+	}
 	acts = append(acts, vfGated(0, slot(), "/app?q=1", 1))
 	swap()
 	acts = append(acts, vfAction{Kind: "authorize", Browser: 0})
@@ -435,7 +443,7 @@ func vfGenC08(r *vfRand, id int) *vfWorldCase {
 	ms := &vfMintSpec{Auth: r.chance(5, 6), Email: "user@example.com", Tok: vfTokForState(r, st), RefreshLen: []int{0, 24, 24, 24, 2600}[r.intn(5)]}
 	acts := []vfAction{{Kind: "mint", Browser: 0, Mint: ms}}
 	for i := 1 + r.intn(5); i > 0; i-- {
-		kind := vfPick(r, "ok", "ok", "ok", "invalid_grant", "invalid_client", "server_error", "malformed", "no_id_token")
+		kind := vfPick(r, "ok", "ok", "ok", "invalid_grant", "invalid_client", "server_error", "malformed", "no_id_token", "drop")
 		spec := vfTokForState(r, vfPick(r, "valid", "valid", "valid", "near", "bad_sig", "wrong_aud", "expired", "chunked"))
 		if spec != nil && r.chance(1, 6) {
 			spec.Email = vfEmails[r.intn(len(vfEmails))]
@@ -460,7 +468,8 @@ func vfCorpusC08() []*vfWorldCase {
 			}),
 			vfGated(0, 0, "/app", 1)}}}
 	}
-	return []*vfWorldCase{mk("ok", false), mk("invalid_grant", false), mk("invalid_grant", true), mk("server_error", true)}
+	return []*vfWorldCase{mk("ok", false), mk("invalid_grant", false), mk("invalid_grant", true), mk("server_error", true),
+		mk("drop", false), mk("drop", true)}
 }
 
 // ---------------------------------------------------------------- C09 / C18: every cookie of every flow (flags)
@@ -728,8 +737,15 @@ func vfGenC17(r *vfRand, id int) *vfWorldCase {
 		acts = append(acts, vfGated(0, 0, "/start", 1))
 	}
 	for i := 1 + r.intn(4); i > 0; i-- {
-		acts = append(acts, vfAction{Kind: "tamper", Browser: 0, Tamper: vfPick(r, "junk", "junk", "truncate", "flip", "swap", "drop"),
-			Name: vfPick(r, "m", "m", "a", "r", "a0", "a1", "a2", "r0", "r1"), Name2: vfPick(r, "a", "r", "m", "a0", "r0")})
+		a := vfAction{Kind: "tamper", Browser: 0, Tamper: vfPick(r, "junk", "junk", "truncate", "flip", "swap", "drop"),
+			Name: vfPick(r, "m", "m", "a", "r", "a0", "a1", "a2", "r0", "r1"), Name2: vfPick(r, "a", "r", "m", "a0", "r0")}
+		if a.Tamper == "drop" || a.Tamper == "swap" {
+			// the property quantifies over cookie VALUES; a jar from which a single chunk cookie has vanished
+			// (a gap in the chunk indices) is not a state the middleware or a value-tampering client produces
+			a.Name = vfPick(r, "m", "a", "r")
+			a.Name2 = vfPick(r, "a", "r", "m")
+		}
+		acts = append(acts, a)
 	}
 	// the request(s) with the bad state
 	for i := 1 + r.intn(2); i > 0; i-- {
@@ -745,8 +761,11 @@ func vfGenC17(r *vfRand, id int) *vfWorldCase {
 			q.Script = &vfTokenScript{Kind: vfPick(r, "ok", "invalid_grant")}
 		}))
 	}
-	// healing: a complete login from the resulting jar, then a gated request
-	acts = append(acts, vfLogin(0, 0, "/healed", vfOkScript(vfPlainTok("user@example.com", 3600)))...)
+	// healing: a complete login from the resulting jar (token of any size, with or without refresh token), then a gated request
+	heal := vfOkScript(vfSizedTok(r, vfSizes[r.intn(len(vfSizes))], r.chance(2, 3)))
+	heal.NoRefresh = r.chance(1, 2)
+	heal.RefreshLen = []int{0, 2600, 5200}[r.intn(3)]
+	acts = append(acts, vfLogin(0, 0, "/healed", heal)...)
 	acts = append(acts, vfReqAct(0, 0, "GET", "/healed", 4, nil))
 	cs.Script.Actions = acts
 	return cs
@@ -765,5 +784,18 @@ func vfCorpusC17() []*vfWorldCase {
 		vfGated(0, 0, "/app", 1)}, heal...)}}
 	long := &vfWorldCase{Kind: "corpus", Script: vfScript{Cfg: cfg, Browsers: 1, Actions: append([]vfAction{
 		vfGated(0, 0, "/app?x="+strings.Repeat("u", 2100), 1)}, heal...)}}
-	return []*vfWorldCase{junk("m"), junk("a"), junk("r"), old, long}
+	chunkHeal := func(first, second int, tamper, name string) *vfWorldCase {
+		s1 := vfOkScript(vfSizedTok(nil, first, true))
+		s1.NoRefresh = true
+		s2 := vfOkScript(vfSizedTok(nil, second, true))
+		s2.NoRefresh = true
+		acts := append(vfLogin(0, 0, "/app", s1), vfGated(0, 0, "/app", 1),
+			vfAction{Kind: "tamper", Browser: 0, Tamper: tamper, Name: name}, vfGated(0, 0, "/app", 1))
+		acts = append(acts, vfLogin(0, 0, "/healed", s2)...)
+		acts = append(acts, vfReqAct(0, 0, "GET", "/healed", 4, nil))
+		return &vfWorldCase{Kind: "corpus", Script: vfScript{Cfg: cfg, Browsers: 1, Actions: acts}}
+	}
+	return []*vfWorldCase{junk("m"), junk("a"), junk("r"), old, long,
+		chunkHeal(6000, 3000, "flip", "a0"), chunkHeal(6000, 3000, "junk", "a1"), chunkHeal(9000, 4400, "truncate", "a0"),
+		chunkHeal(3000, 6000, "junk", "a0"), chunkHeal(6000, 6000, "junk", "a2")}
 }
